@@ -147,6 +147,17 @@ CHECKS = {
         "DESIGN.md §4 C14",
         "A",
     ),
+    "C15": (
+        "model_checking",
+        "bounded-exhaustive enumeration of generated invariant-testing projects (target function sets x invariants x depth 0..3 x filter combinations), each run end to end by the real run_contract; verdicts, cached frontier states and explored calls compared with a breadth-first search over all call sequences on a reference EVM",
+        "Projects: a test contract whose setUp() CREATEs 1-2 targets built from {inc, dec, set(uint8), rng(uint8), step, pay, tick, own, bad, dbl} (all subsets of size <= 2, selected / thorough all triples), invariants s != c, s <= 1, t <= 1, --invariant-depth 0..3, and for a two-target project every "
+        "combination (quick: up to two kinds at a time) of targetSenders/excludeSenders/targetContracts/excludeContracts/targetSelectors (incl. several entries for one address)/excludeSelectors. The reference runs the same bytecode on mc/refevm.py: BFS over all sequences of admitted calls with arguments, senders, "
+        "msg.value and timestamp increments from small domains that are complete for this grammar. Oracles: an invariant broken by a sequence of <= d calls <=> halmos FAIL at depth d; every target state reached by the reference in k calls is an instance of a cached frontier state of depth <= k (storage terms and path "
+        "conditions grounded over a finite assignment domain), so over-merging, an off-by-one in the depth loop or a dropped target shows up as an unrepresented state; every call recorded in the frontier call sequences is admitted by Foundry's filter rules; a reachable assertion failure inside a target must be reported and fail.",
+        "Trusted: mc/invgen.py (project generator, Foundry filter resolution as documented, BFS), mc/refevm.py. msg.value is not moved by the top-level message (halmos modelling decision) and tx.origin is over-approximated: targets only read msg.value, never tx.origin. Two open findings are listed in known_findings.json.",
+        "DESIGN.md §4 C15",
+        "A",
+    ),
     "C17": (
         "model_checking",
         "stateless, deviation/preemption-bounded exploration (CHESS style) of the real halmos/processes.py and solve.solve_low_level under a cooperative scheduler with simulated subprocesses; invariants evaluated on every complete schedule",
